@@ -432,14 +432,16 @@ Proof.
                  tp = bh_prepare cap lower c r t1 /\ head = head_text tp).
   { intros tp head Eb. unfold build_response_header in Eb. injection Eb as E1 E2.
     apply encode_latin1_ok in E2. subst. auto. }
-  assert (Hfit : (Z.of_nat (length (concat chunks)) <= cl)%Z) by lia.
-  assert (Hafter : forall n : nat,
-     x_out (if true && hc then mkExec (t2, ch2) (Ok tt) n false true
-            else mkExec (t2, ch2) (Ok tt) 0 (negb true) true) = Ok tt
-     /\ x_st (if true && hc then mkExec (t2, ch2) (Ok tt) n false true
-            else mkExec (t2, ch2) (Ok tt) 0 (negb true) true) = (t2, ch2))
-    by (intros; destruct (true && hc); auto).
-  destruct (Hafter 1%nat) as [Ho Hst2]. rewrite Ho, Hst2. clear Hafter Ho Hst2.
+  assert (Hfit : (Z.of_nat (length (concat chunks)) <= cl)%Z) by (rewrite Hlen; apply Z.le_refl).
+  set (tfin := match t_clen t2 with
+               | Some cl0 => if negb (t_cbw t2 =? cl0)%Z && negb (r_head r) then set_close_on_finish cap lower t2 else t2
+               | None => t2 end).
+  assert (Hafter : x_out (if true && hc then mkExec (tfin, ch2) (Ok tt) 1 false true
+                          else mkExec (tfin, ch2) (Ok tt) 0 (negb true) true) = Ok tt
+     /\ x_st (if true && hc then mkExec (tfin, ch2) (Ok tt) 1 false true
+              else mkExec (tfin, ch2) (Ok tt) 0 (negb true) true) = (tfin, ch2))
+    by (destruct (true && hc); auto).
+  destruct Hafter as [Ho Hst2]. rewrite Ho, Hst2. clear Ho Hst2.
   (* ---- the client, for whatever head the prepared task serialises to ---- *)
   set (keep := if beqb (r_version r) (lit "1.1")
                then negb (beqb (request_connection r) (lit "close") || r_connection_close r)
@@ -462,8 +464,11 @@ Proof.
     assert (Hbp : has_body tp = true) by (unfold has_body; rewrite Pst, S2, Hst; reflexivity).
     assert (Hadd : add = (if keep then (if beqb (r_version r) (lit "1.1") then [] else [f_keep]) else [f_close])).
     { subst keep. unfold conn_table in Etab. destruct (beqb (r_version r) (lit "1.1")).
-      - injection Etab as <- _. destruct (_ || _); reflexivity.
-      - rewrite andb_true_r in Etab. destruct (_ && _); injection Etab as <- _; reflexivity. }
+      - destruct (beqb (request_connection r) (lit "close") || r_connection_close r);
+          injection Etab as <- _; reflexivity.
+      - rewrite andb_true_r in Etab.
+        destruct (beqb (request_connection r) (lit "keep-alive") && negb (r_connection_close r));
+          injection Etab as <- _; reflexivity. }
     assert (Hnc : Forall (fun h => no_colon (fst h)) (t_rh tp)).
     { rewrite Prh, Erh1, map_app. cbn [map]. apply Forall_app. split.
       - apply Forall_app. split; [apply plain_no_colon; auto|]. constructor; [|apply plain_no_colon; auto].
@@ -509,13 +514,13 @@ Proof.
         * rewrite Forall_forall in Ptail. destruct (Ptail h Hh) as [E|[E|E]];
             unfold client_field, f_close in Eh; injection Eh as E1 _; rewrite E in E1; discriminate. }
   (* ---- the two ways the head goes out ---- *)
-  destruct (iterate_fresh_len cap lower c r _ chunks t1 (mkChan [] 0) true cl _ _ Hc1 S5 Hcl1 S8) with (3 := Eit)
-    as [[Hall Hs]|(tp & head & Eb & S2' & B2 & W2)]; auto.
-  { rewrite Pchk. reflexivity. }
+  destruct (iterate_fresh_len cap lower c r _ chunks t1 (mkChan [] 0) true cl _ _ Hc1 S5 Hcl1 S8 Pchk Hb1 Hfit Eit eq_refl)
+    as [[Hall Hs]|(tp & head & Eb & S2' & B2 & W2)].
   - (* every chunk empty (so cl = 0): finish() sends the head *)
     inversion Hs; subst t2 ch2.
-    assert (Hcl0 : cl = 0%Z) by (rewrite (all_empty_concat chunks Hall) in Hlen; cbn in Hlen; lia).
-    rewrite Hcl1, S8, Hcl0. cbn [Z.eqb negb andb].
+    assert (Hcl0 : cl = 0%Z) by (rewrite (all_empty_concat chunks Hall) in Hlen; cbn in Hlen; symmetry; exact Hlen).
+    assert (Etf : tfin = t1) by (subst tfin; rewrite Hcl1, S8, Hcl0; reflexivity).
+    rewrite Etf.
     destruct (task_finish cap lower c r None (t1, mkChan [] 0)) as [s3 [[]|e3]] eqn:Ef; cbn [x_out x_st];
       [|intro X; discriminate X].
     intros _. destruct (finish_fresh cap lower c r t1 (mkChan [] 0) s3 (Ok tt) Hc1 S5 Ef eq_refl) as (tp & head & Eb & Ht & W).
@@ -529,7 +534,8 @@ Proof.
     assert (Hcl2 : t_clen t2 = Some cl).
     { rewrite A6. cbn [t_clen set_wrote]. destruct (Etp0 tp head Eb) as [-> _].
       destruct (keeps_bh_prepare cap lower c r t1) as (_ & _ & K3 & _). congruence. }
-    rewrite Hcl2, B2, Hlen, Z.eqb_refl. cbn [negb andb].
+    assert (Etf : tfin = t2) by (subst tfin; rewrite Hcl2, B2, Hlen, Z.eqb_refl; reflexivity).
+    rewrite Etf.
     assert (Hw2 : t_wrote_header t2 = true) by (rewrite A4; reflexivity).
     destruct (finish_after_head cap lower c r t2 ch2 Hw2) as (ch3 & Ef & W3). rewrite Ef. cbn [x_out x_st fst snd].
     intros _. fold (chan_wire ch3). rewrite W3, W2, A2, A3. cbn [t_chunked t_cof set_wrote]. rewrite Ek, app_nil_r.
